@@ -75,12 +75,12 @@ def _z3_check(L, hyps, goal, budget_ms, extra=()):
     return st, ms, s, (s.reason_unknown() if st == "unknown" else "")
 
 
-def _cvc5_check(solver, budget_ms):
+def _cvc5_check(solver, budget_ms, mode="--full-saturate-quant"):
     txt = solver.to_smt2()
     t1 = time.time()
     ans = ""
     try:
-        p = subprocess.run([CVC5, "--lang=smt2", f"--tlimit={int(budget_ms)}", "--full-saturate-quant"],
+        p = subprocess.run([CVC5, "--lang=smt2", f"--tlimit={int(budget_ms)}", mode],
                            input=txt, capture_output=True, text=True, timeout=budget_ms / 1000 + 5)
         ans = p.stdout.strip().splitlines()[0] if p.stdout.strip() else ""
     except Exception:   # pragma: no cover
@@ -88,7 +88,7 @@ def _cvc5_check(solver, budget_ms):
     return ans, (time.time() - t1) * 1000
 
 
-def prove(L, hyps, goal, budget_ms, use_cvc5=True, extra=()):
+def prove(L, hyps, goal, budget_ms, use_cvc5=True, extra=(), find_models=False):
     """unsat of hyps & not goal.  z3 first (short budget), then cvc5 on the same SMT-LIB text, then z3 with the full budget.
     Returns (status in {'unsat','sat','unknown'}, backend, ms, z3 solver, reason)."""
     first = min(budget_ms, 3000) if (use_cvc5 and L.k is None) else budget_ms
@@ -101,6 +101,13 @@ def prove(L, hyps, goal, budget_ms, use_cvc5=True, extra=()):
         total += ms2
         if ans == "unsat":
             return "unsat", "cvc5", total, s, ""
+        if find_models:
+            # a finite counter-model (candidate: the closure axioms have non-standard models) -- used by the caller only for
+            # obligations that are discharged on the unchanged tree
+            ans, ms2 = _cvc5_check(s, min(budget_ms, 5000), "--finite-model-find")
+            total += ms2
+            if ans == "sat":
+                return "sat", "cvc5-fmf", total, s, ""
         if first < budget_ms:
             st, ms3, s, why = _z3_check(L, hyps, goal, budget_ms, extra)
             total += ms3
@@ -115,13 +122,13 @@ def _solve(idx_budget):
     L = inst.L
     extra = []
     backend_note = ""
-    if _has_two_closures(L, inst.goal):
+    if _has_two_closures(L, inst.goal, inst.hyps):
         # cut rule for goals that compare two closures: first prove  R_i <= rtc_j  (a first-order fact about one step),
         # conclude rtc_i <= rtc_j by the simulation lemma y0_rtc_lift, and use that as a hypothesis
         extra = _closure_cuts(L, inst, budget_ms, use_cvc5)
         if extra:
             backend_note = "+cut"
-    st, backend, ms, s, why = prove(L, inst.hyps, inst.goal, budget_ms, use_cvc5, extra)
+    st, backend, ms, s, why = prove(L, inst.hyps, inst.goal, budget_ms, use_cvc5, extra, find_models=True)
     smt2 = s.to_smt2() if want_smt2 else None
     if st == "unsat":
         return idx, "discharged", ms, None, "", smt2, backend + backend_note
@@ -136,14 +143,22 @@ def _solve(idx_budget):
     return idx, "undecided", ms, None, why or "unknown", smt2, backend
 
 
-def _goal_closures(L, goal):
+def _goal_closures(L, goal, hyps=()):
+    """closures occurring in the goal, followed by those occurring only in the hypotheses"""
     from .logic import symbols_of
     syms = symbols_of(goal)
-    return [(n, R, C) for n, R, C in L.closures if n in syms]
+    first = [(n, R, C) for n, R, C in L.closures if n in syms]
+    if not first:
+        return []
+    hs = set()
+    for h in hyps:
+        hs |= symbols_of(h)
+    rest = [(n, R, C) for n, R, C in L.closures if n in hs and n not in syms]
+    return first + rest[:3]
 
 
-def _has_two_closures(L, goal):
-    return L.k is None and len(_goal_closures(L, goal)) >= 2
+def _has_two_closures(L, goal, hyps=()):
+    return L.k is None and len(_goal_closures(L, goal, hyps)) >= 2
 
 
 CUT_DEADLINE_S = {"quick": 25.0, "thorough": 900.0}
@@ -157,11 +172,12 @@ def _closure_cuts(L, inst, budget_ms, use_cvc5=True):
        either of which gives rtc_i <= rtc_j by y0_rtc_lift.  Returns the established inclusions."""
     from .logic import split_cases
     out = []
-    cl = _goal_closures(L, inst.goal)
+    cl = _goal_closures(L, inst.goal, inst.hyps)
+    ngoal = len(_goal_closures(L, inst.goal))
     deadline = time.time() + CUT_DEADLINE_S.get(TIER, 25.0)
-    for (ni, Ri, Ci) in cl:
-        for (nj, Rj, Cj) in cl:
-            if ni == nj:
+    for ii, (ni, Ri, Ci) in enumerate(cl):
+        for jj, (nj, Rj, Cj) in enumerate(cl):
+            if ni == nj or (ii >= ngoal and jj >= ngoal):
                 continue
             if time.time() > deadline:
                 return out
